@@ -1336,6 +1336,38 @@ class Engine:
             ctx.suite(suite, n, d)
         return records
 
+    def compare_loads(self, cases, suite):
+        """explicit (spec, datum, mode, strict) cases: real outcome and, when the driver is available, the model's outcome;
+        disagreements are recorded under `suite`. -> list of (case, real, model-or-None)"""
+        ctx = self.ctx
+        out, requests, index = [], [], []
+        for spec, datum, m, s in cases:
+            real = canon_outcome(self.real.load(m, s, spec.hint, datum))
+            row = [(spec, datum, m, s), real, None]
+            out.append(row)
+            try:
+                ev = enc(datum)
+            except Unencodable:
+                continue
+            if self.drv and faithful(ev, ty_is_eq_sensitive(spec.ty)) and not numeric_mix(spec.ty):
+                requests.append(load_request(self.real, spec, datum, m, s, self.site_cache))
+                index.append(row)
+        if self.drv and requests:
+            n = d = 0
+            for row, rep, req in zip(index, self.drv.batch(requests), requests):
+                if "ok" not in rep:
+                    ctx.dist["model-declined:" + rep.get("err", "?")[:40]] += 1
+                    continue
+                row[2] = canon_outcome(rep["ok"])
+                n += 1
+                if row[2] != row[1]:
+                    d += 1
+                    spec, datum, m, s = row[0]
+                    ctx.disagree(suite, {"hint": repr(spec.hint), "ty": spec.ty, "datum": enc(datum), "mode": m, "strict": s},
+                                 row[1], row[2])
+            ctx.suite(suite, n, d)
+        return out
+
     # ---- dumps ------------------------------------------------------------------------
     def dump_records(self, specs, suite="dump", n_values=3):
         ctx = self.ctx
